@@ -356,9 +356,9 @@ DURATION_UNITS = ['year', 'week', 'day', 'hour', 'minute', 'second']
 
 
 def harnesses(tier):
-    hs = [DivRem(), ToList(2), ToList(3)]
+    hs = [DivRem(), ToList(2), ToList(3), ToList(4)]
     if tier == 'thorough':
-        hs.append(ToList(4))
+        hs += [ToList(5), ToList(6), ToList(7), ToList(8)]
     vals = dbvalues.units(DURATION_UNITS)
     consts = [(n, Fraction(vals[n]['value'])) for n in DURATION_UNITS]
     hs.append(ToList(6, consts=consts, name='to_list.duration_breakdown'))
